@@ -94,6 +94,8 @@ def generate(ctx):
                 ops.append({"op": "clear"})
             elif r < 0.94:
                 ops.append({"op": "unbound", "which": rng.choice(["upper", "lower", "full"])})
+            elif r < 0.97:
+                ops.append({"op": "discard", "param": rng.choice(["weight", "bias", "delay"])})   # del updater.<param>: pending parts dropped
             else:
                 ops.append({"op": "update_twice"})
         ops.append({"op": "update", "clear": True})
@@ -321,6 +323,16 @@ def _algebra(ctx, desc):
                         if not np.array_equal(after[nm], _np(getattr(conn, nm)), equal_nan=True):
                             return ctx.violation("algebra.second_application_after_clear_changes_parameter",
                                                  f"{nm} changed on a second update() after the default clear", rdesc)
+            elif k == "discard":
+                nm = op["param"]
+                if nm in pshape:
+                    delattr(upd, nm)
+                    model[nm] = {"pos": [], "neg": []}
+                    ctx.count("discarded_pending_updates")
+                    if upd.parent is not conn:
+                        return ctx.violation("algebra.updater_parent", "updater.parent is not the connection it was built for", rdesc)
+                    if not check_params(cur, set(), rdesc, "discard"):
+                        return
             elif k == "clear":
                 conn.clear()
                 model = {nm: {"pos": [], "neg": []} for nm in pshape}
